@@ -5,7 +5,7 @@ import json, sys
 
 CHECKS = {
  "C01": dict(
-   text="Exhaustive differential of the public parse entry point against an independent recursive-descent reference grammar on every word sequence up to length 6 (quick) / 7 (thorough) over the 11-word operator alphabet, plus random near-sentences and print/parse round trips of trees up to depth 8. Exhaustive within the bound, sampled beyond; generated search never proves absence.",
+   text="Exhaustive differential of the public parse entry point against an independent recursive-descent reference grammar on every word sequence up to length 6 (quick) / 7 (thorough) over the 11-word operator alphabet, plus random near-sentences, print/parse round trips of trees up to depth 8, nesting of every depth 1..64, operator chains of 10..2500 operands, operator words glued to what follows (must be rejected), replay of a fuzz corpus; thorough adds a libFuzzer campaign with the same oracle. Exhaustive within the bound, sampled beyond; generated search never proves absence.",
    ref="DESIGN.md section 4, C01",
    note="Trusted: the hand-written reference grammar (self-checked against the tree printer on every run); three primaries stand for all primaries.",
    technique="exhaustive enumeration + proptest random generation, differential against a reference grammar, round trip"),
@@ -15,12 +15,12 @@ CHECKS = {
    note="Trusted: the harness's Scheme reader/evaluator and LiPE runtime model (assumptions listed in the evidence file), the find-semantics evaluator, fnmatch implementation.",
    technique="proptest-generated programs, differential execution against a reference evaluator (translation validation)"),
  "C03": dict(
-   text="Totality search over ~1.5 M (quick) structured inputs per build profile: grammar-aware texts, all prefixes and single-character mutations, exhaustive short argument strings after every keyword, numeric boundaries; every stage (parse, error Display/Debug, compile, scheme, io_map) must return; run in child processes of the dev and the release harness so aborts are contained. Thorough adds libFuzzer campaigns.",
+   text="Totality search over ~1.5 M (quick) structured inputs per build profile (incl. long words with multi-byte characters at power-of-two byte offsets, expressions with > 127 distinct matchers, five further renderings after a hostile one): grammar-aware texts, all prefixes and single-character mutations, exhaustive short argument strings after every keyword, numeric boundaries; every stage (parse, error Display/Debug, compile, scheme, io_map) must return; run in child processes of the dev and the release harness so aborts are contained. Thorough adds libFuzzer campaigns.",
    ref="DESIGN.md section 4, C03 and 3.7",
    note="A hang would be reported as inconclusive (exit 2), not as a violation; nesting beyond 64 and inputs beyond 4 KiB are outside the property.",
    technique="structured generation + mutation + exhaustive short strings, crash oracle in child processes, both build profiles"),
  "C04": dict(
-   text="Every string-carrying construct x every string of length <= 3 (quick) / 4 (thorough) over a 17-symbol hostile alphabet, plus random longer strings: the emitted program must read as exactly two forms, have the same structure as the program for the neutralised string, carry the string as a literal decoding to exactly it, and print literal format text verbatim when executed.",
+   text="Every string-carrying construct (39 carriers: tests and actions, plain and framed mode, short and > 1000-byte policy bodies, format literals, octal-escaped characters, strftime selectors, the device path) x every string of length <= 3 (quick) / 4 (thorough) over an 18-symbol hostile alphabet, plus long strings with multi-byte characters at power-of-two offsets, a dictionary of tokens extracted from the code generator's own sources, all 512 octal escapes and random strings: the emitted program must read as exactly two forms, have the same structure as the program for the neutralised string, carry the string as a literal decoding to exactly it, and print literal format text verbatim when executed.",
    ref="DESIGN.md section 4, C04",
    note="Trusted: the harness's reader for Guile string/char syntax (strict on unknown escapes). No Guile in the sandbox to cross-check.",
    technique="exhaustive short strings + random strings, non-interference (metamorphic) oracle through an independent reader, behavioural check"),
@@ -75,7 +75,7 @@ CHECKS = {
    note="One/two-digit octal escapes: both documented readings accepted; %{xattr:NAME} asserted for letter names only.",
    technique="exhaustive enumeration + random generation, differential against an independent scanner"),
  "C15": dict(
-   text="Resource-rich random expressions: parse twice, compile e1/e2/e1 in one process (programs byte-identical after normalising the embedded second, equal tables), the same texts in three fresh processes, embedded second within clock readings around the call.",
+   text="Resource-rich random expressions: parse twice, compile e1/e2/e1 in one process (programs byte-identical after normalising the embedded second, equal tables), the same texts plus near-duplicates in three fresh processes that visit them in different orders, embedded second within clock readings around the call, also in histories where earlier compilations fail and the wall clock advances in between.",
    ref="DESIGN.md section 4, C15",
    note="The only check that reads the wall clock, and only to bracket the compile call.",
    technique="proptest generation, repeat/differential across calls and processes, invariant on the embedded time"),
